@@ -46,12 +46,17 @@ impl parsing::Span<'_> {
         Self::build_duration(self.sign, second_value, nanosecond_value, unit)
     }
 
-    fn get_second_value(&self) -> Result<i64> {
-        Ok(get_optional_digit_value(self.week)? * 7 * 24 * 60 * 60
-            + get_optional_digit_value(self.day)? * 24 * 60 * 60
-            + get_optional_digit_value(self.hour)? * 60 * 60
-            + get_optional_digit_value(self.minute)? * 60
-            + get_optional_digit_value(self.second)?)
+    /// The week, day, hour, minute and second components in seconds
+    ///
+    /// Each component fits into an `u64`, the sum is accumulated as `i128` and cannot overflow
+    fn get_second_value(&self) -> Result<i128> {
+        Ok(
+            i128::from(get_optional_digit_value(self.week)?) * 7 * 24 * 60 * 60
+                + i128::from(get_optional_digit_value(self.day)?) * 24 * 60 * 60
+                + i128::from(get_optional_digit_value(self.hour)?) * 60 * 60
+                + i128::from(get_optional_digit_value(self.minute)?) * 60
+                + i128::from(get_optional_digit_value(self.second)?),
+        )
     }
 
     fn get_nanosecond_value(&self) -> Result<i64> {
@@ -70,30 +75,30 @@ impl parsing::Span<'_> {
 
     fn build_duration(
         sign: Option<char>,
-        second_value: i64,
+        second_value: i128,
         nanosecond_value: i64,
         unit: TimeUnit,
     ) -> Result<i64> {
-        let unsigned_duration = match unit {
-            TimeUnit::Second => second_value,
-            TimeUnit::Millisecond => match second_value.checked_mul(1_000_i64) {
-                Some(res) => res + nanosecond_value / 1_000_000,
-                None => fail!("Cannot represent {second_value} with Microsecond resolution"),
-            },
-            TimeUnit::Microsecond => match second_value.checked_mul(1_000_000_i64) {
-                Some(res) => res + nanosecond_value / 1_000,
-                None => fail!("Cannot represent {second_value} with Millisecond resolution"),
-            },
-            TimeUnit::Nanosecond => match second_value.checked_mul(1_000_000_000_i64) {
-                Some(res) => res + nanosecond_value,
-                None => fail!("Cannot represent {second_value} with Nanosecond resolution"),
-            },
+        let nanoseconds_per_unit: i128 = match unit {
+            TimeUnit::Second => 1_000_000_000,
+            TimeUnit::Millisecond => 1_000_000,
+            TimeUnit::Microsecond => 1_000,
+            TimeUnit::Nanosecond => 1,
         };
 
-        if sign == Some('-') {
-            Ok(-unsigned_duration)
+        let unsigned_duration =
+            (second_value * 1_000_000_000 + i128::from(nanosecond_value)) / nanoseconds_per_unit;
+        let duration = if sign == Some('-') {
+            -unsigned_duration
         } else {
-            Ok(unsigned_duration)
+            unsigned_duration
+        };
+
+        match i64::try_from(duration) {
+            Ok(duration) => Ok(duration),
+            Err(_) => fail!(
+                "Cannot represent {second_value}s {nanosecond_value}ns with {unit} resolution"
+            ),
         }
     }
 }
@@ -126,7 +131,7 @@ pub fn format_arrow_duration_as_span(value: i64, unit: TimeUnit) -> String {
     }
 }
 
-fn get_optional_digit_value(s: Option<&str>) -> Result<i64> {
+fn get_optional_digit_value(s: Option<&str>) -> Result<u64> {
     match s {
         Some(s) => Ok(s.parse()?),
         None => Ok(0),
